@@ -20,8 +20,16 @@ class NDSet(set):
             return iter(items)
         if n > MAXN:
             raise core.Inconclusive(f"NDSet of {n} elements: iteration orders not enumerated beyond {MAXN}")
-        k = core.cur().choose(math.factorial(n))
-        perm = next(itertools.islice(itertools.permutations(items), k, None))
+        # for one interpreter (one hash seed) the iteration order of a set is a function
+        # of its contents: one decision per distinct content per path
+        ex = core.cur()
+        memo = ex.path_memo
+        key = ("ndset", tuple(str(x) for x in items))
+        perm = memo.get(key)
+        if perm is None:
+            k = ex.choose(math.factorial(n))
+            perm = next(itertools.islice(itertools.permutations(items), k, None))
+            memo[key] = perm
         return iter(perm)
 
     def copy(self):
